@@ -239,11 +239,58 @@ SHARED_EVALS = ["/cc:top/fl = 'b0'", "count(/cc:top/item) > 1", "/cc:top/dt > '2
 DICT_STRS = ["alpha", "beta", "gamma", "top", "fl", "b0 b1", "shared-string-of-some-length", "x", "id-a", ""]
 
 
+P_ONLY, P_STRICT, P_OPAQ, P_NO_STATE, P_ORDERED = 0x010000, 0x020000, 0x040000, 0x080000, 0x200000
+V_NO_STATE, V_PRESENT, V_MULTI = 1, 2, 4
+PARSE_OPTS = [P_STRICT, P_STRICT | P_OPAQ, P_ONLY | P_STRICT, P_ONLY | P_OPAQ | P_STRICT, P_OPAQ, P_ONLY | P_OPAQ,
+              P_NO_STATE | P_STRICT, P_ORDERED | P_STRICT, 0, P_ONLY]
+PRINT_OPTS = [0, 2, 0x20, 0x10, 4, 0x22, 0x14]       # shrink, with-defaults all / trim, keep empty containers
+
+
+def opt_parse_op(rng, docs_ok, docs_bad, no_multi=False):
+    """Q operation: any document, drawn parser / validation / printer options. no_multi: the thread has switched the storing
+    of its errors off (T0); LYD_VALIDATE_MULTI_ERROR then dereferences ly_err_last() == NULL in LY_DPARSER_ERR_GOTO
+    (parser_internal.h:41-43) on the first invalid value - a single-threaded crash reported to the coordinator (robustness,
+    not this property), kept out of these workloads"""
+    i = rng.choice(docs_ok + docs_bad)
+    fmt = "l" if (i in docs_ok and rng.random() < 0.25) else i[1]
+    po = rng.choice(PARSE_OPTS)
+    if fmt == "l":
+        po &= ~P_OPAQ
+    vo = 0 if po & P_ONLY else rng.choice([V_PRESENT, V_PRESENT | V_MULTI, V_PRESENT | V_NO_STATE, 0, V_MULTI])
+    if no_multi:
+        vo &= ~V_MULTI
+    return "Q%s%d:%d:%d:%d" % (fmt, i[0], po, vo, rng.choice(PRINT_OPTS))
+
+
 def rand_ops(rng, docs_ok, docs_bad, has_lyb, shared, n, want_err=None):
     """one thread's workload"""
     ops = []
+    temp = None
     for _ in range(n):
         r = rng.random()
+        q = rng.random()
+        if q < 0.14 and (docs_ok or docs_bad):
+            ops.append(opt_parse_op(rng, docs_ok, docs_bad, no_multi=(temp == 0)))
+            if rng.random() < 0.5:
+                ops.append("E")
+            continue
+        if q < 0.18 and docs_bad and want_err is not False:
+            i = rng.choice(docs_bad)
+            ops.append("K%d:%s%d" % (rng.randrange(3, 25), i[1], i[0]))
+            continue
+        if q < 0.21 and docs_ok:
+            i = rng.choice(docs_ok)
+            ops.append("G%d:%s%d:%d" % (rng.randrange(2, 8), i[1], i[0], rng.choice(PARSE_OPTS)))
+            continue
+        if q < 0.24:
+            # the thread's own temporary logging options (no logging / store only / store last) and their end
+            if temp is None:
+                temp = rng.choice([0, 2, 6, 3])
+                ops.append("T%d" % temp)
+            else:
+                temp = None
+                ops.append("T-")
+            continue
         if r < 0.22 and docs_ok:
             i = rng.choice(docs_ok)
             f = rng.choice("xjl") if i in has_lyb else ("x" if i[1] == "x" else "j")
@@ -283,7 +330,15 @@ def rand_ops(rng, docs_ok, docs_bad, has_lyb, shared, n, want_err=None):
     return ops or ["E"]
 
 
-def make_case(rng, nthr, reps, flags, nops=(5, 11), want_err=None, shared=True):
+def big_doc(rng, n=300):
+    """a valid document that keeps a parser busy: hundreds of leaf-list instances"""
+    ll = rng.sample(range(0, 60000), n)
+    ns = rng.sample(range(-100000, 100000), n // 2)
+    return ('<top xmlns="urn:cc"><i32>5</i32><str>abc</str>' + "".join("<ll>%d</ll>" % x for x in ll) + "</top>"
+            '<other xmlns="urn:cd">' + "".join("<n>%d</n>" % x for x in ns) + "</other>").encode()
+
+
+def make_case(rng, nthr, reps, flags, nops=(5, 11), want_err=None, shared=True, big=None, extra_threads=None):
     """a generated case line"""
     docs = []          # (format, bytes, valid?)
     nvalid = rng.randrange(2, 5)
@@ -300,6 +355,10 @@ def make_case(rng, nthr, reps, flags, nops=(5, 11), want_err=None, shared=True):
     thr = []
     for t in range(nthr):
         thr.append(",".join(rand_ops(rng, ok, bad, set(ok), shared, rng.randrange(*nops), want_err)))
+    if extra_threads:
+        thr = extra_threads(ok, bad, len(docs)) + thr[len(extra_threads(ok, bad, len(docs))):]
+    if big:
+        docs.append(("x", big, True))
     okidx = set(i for i, d in enumerate(docs) if d[2])
     expect_ok = sum(1 for t in thr for o in t.split(",") if o[0] == "P" and int(o[2:]) in okidx)
     return "\t".join(["conc", str(nthr), str(reps), "%s:%d" % (flags or "-", expect_ok), "0" if shared else "-1", str(len(docs))] +
@@ -333,7 +392,7 @@ def witness_canon():
 # ------------------------------------------------------------------------------------------------
 # output parsing / judging
 # ------------------------------------------------------------------------------------------------
-_F = re.compile(r"^(ok|DIFF \S+) dict=(\d+):(\d+) leak=(\d+):(\d+) lock=(\d+):(\d+)(@\S+)? dangling=(\d+) pok=(\d+)/(\d+)( aloneleak=\d+)?"
+_F = re.compile(r"^(ok|DIFF \S+) dict=(\d+):(\d+) leak=(\d+):(\d+) lock=(\d+):(\d+)(@\S+)? dangling=(\d+) glob=(\S+) pok=(\d+)/(\d+)( aloneleak=\d+)?"
                 r"(?: left=[0-9a-f-]+)*(?: res=(\S+))?(?: tsan=(\S+))?$")
 
 CANON_PRINT = re.compile(r"^lyplg_type_print_(bits|binary|date_and_time|ipv4_address|ipv4_address_no_zone|ipv4_prefix|"
@@ -348,10 +407,10 @@ def parse_out(out):
         return None
     res = {"verdict": m.group(1), "dict": (int(m.group(2)), int(m.group(3))), "leak": (int(m.group(4)), int(m.group(5))),
            "lock": (int(m.group(6)), int(m.group(7))), "lock_where": m.group(8) or "", "dangling": int(m.group(9)),
-           "pok": (int(m.group(10)), int(m.group(11))),
-           "aloneleak": m.group(12), "res": m.group(13) or "", "tsan": []}
-    if m.group(14) and m.group(14) not in ("0", "?"):
-        for rep in m.group(14).split("|")[1:]:
+           "glob": m.group(10), "pok": (int(m.group(11)), int(m.group(12))),
+           "aloneleak": m.group(13), "res": m.group(14) or "", "tsan": []}
+    if m.group(15) and m.group(15) not in ("0", "?"):
+        for rep in m.group(15).split("|")[1:]:
             kind, _, stacks = rep.partition("~")
             st = [s.split("<") for s in stacks.split("/")]
             while len(st) < 2:
@@ -620,6 +679,22 @@ class ConcSerial:
             clean.append(make_case(rng, rng.randrange(2, 9), reps, "wp"))
         for _ in range(2 * n):          # no shared tree: LYB hash cache, dictionary and schema reads only
             clean.append(make_case(rng, rng.randrange(3, 9), reps, "p", shared=False))
+        for _ in range(3 * n):
+            # gateways stay inside the XML parser with LYD_PARSE_OPAQ (every terminal value goes through the code that
+            # silences the logger for a trial validation) on a big document, checkers run short failing parses in a tight
+            # loop and look at their error record after each; the rest of the threads run random workloads
+            ng, nc = rng.randrange(1, 4), rng.randrange(1, 4)
+
+            def special(ok, bad, bigidx, ng=ng, nc=nc):
+                g = ["G%d:x%d:%d" % (12, bigidx, P_ONLY | P_OPAQ | P_STRICT)] * ng
+                xb = [b for b in bad if b[1] == "x"] or bad
+                c = []
+                for k in range(nc):
+                    b = xb[k % len(xb)]
+                    c.append(",".join(["K250:%s%d" % (b[1], b[0]), "E", "P%s%d" % (b[1], b[0]), "E", "K250:%s%d" % (b[1], b[0])]))
+                return g + c
+            clean.append(make_case(rng, min(8, ng + nc + rng.randrange(0, 3)), 2, "p", shared=False, big=big_doc(rng),
+                                   extra_threads=special))
         for _ in range(4 * n):          # lazily cached canonical strings of the shared tree are generated by the threads
             lazy.append(make_case(rng, rng.randrange(2, 6), reps, "p"))
         for _ in range(3 * n):          # first errors of >= 6 threads while others read theirs (table arena resized)
@@ -651,6 +726,8 @@ class ConcSerial:
         if ":" in flags and r["pok"][0] < int(flags.split(":")[1]):
             return (None, "a document that is valid by construction was rejected or failed in the pipeline when run alone "
                           "(%d good parse operations, %s expected)" % (r["pok"][0], flags.split(":")[1]))
+        if r["glob"] != "ok":
+            return (None, "process-wide / per-context state changed by the concurrent run: %s" % r["glob"])
         if r["aloneleak"]:
             return (None, "a workload run alone leaves strings in the dictionary:%s" % r["aloneleak"])
         if r["lock"][1]:
